@@ -14,7 +14,7 @@ RULE = ("random record descriptions (C01's generator with a numeric-rich pool: z
         "(names, REDEFINES-x entries, first/second/last index of every table, refused indices): start, end, raw(), value() (or the exception class) and the "
         "list of slices value() took from the instance (a BytesInstance subclass that logs __getitem__); for every top-level property nav.name(k).value(), and "
         "Row.values(). The judge checks whole-versus-part on the observations, decodes every elementary item from its own bytes with the C02 model, and compares "
-        "everything with the value model. Own streams: OCCURS DEPENDING ON inside a repeated group (index raises KeyError) and index(-1). "
+        "everything with the value model. All navigators of a case are created breadth-first from shared, held parent navigators before anything is read. Own streams: OCCURS DEPENDING ON inside a repeated group (index raises KeyError) and index(-1). "
         "Non-trivial = tree has OCCURS, REDEFINES, ODO or an undecodable field (branch > 1); distinct = distinct case lines.")
 TRIVIAL_BRANCHES = [1]
 ASSUMPTIONS = ["widths of elementary items are given to the judge as the widths C04's specification lists",
@@ -197,9 +197,18 @@ def build_case(c):
     if len(paths) > cap:
         keep = set(rng.sample(range(len(paths)), cap))
         chosen = {tuple(map(tuple, p)) for i, p in enumerate(paths) if i in keep}
+        allp = {tuple(map(tuple, p)) for p in paths}
         for p in list(chosen):
             for j in range(len(p)):
                 chosen.add(p[:j])
+                # keep a second occurrence of every table that is entered, so that two element navigators of one
+                # held table navigator exist side by side
+                if p[j][0] == 1:
+                    for other in (0, 1):
+                        sib = p[:j] + ((1, other),)
+                        if other != p[j][1] and sib in allp:
+                            chosen.add(sib)
+                            break
         paths = [p for p in paths if tuple(map(tuple, p)) in chosen]
     record = make_record10(tree, env, total, rng, c["corrupt"])
     return tree, env, counters, paths, record
@@ -255,11 +264,36 @@ def observe(ctx, c):
     inst = LogInstance(bytes(record))
     nav0 = unp.nav(schema, inst)
 
+    # Navigators are created breadth-first from SHARED parent navigators and ALL of them are kept alive; nothing is
+    # read until every navigator exists.  So every index() of a table is taken from one held table navigator before
+    # any occurrence is looked into (the way an application loops over a table, or compares two occurrences), and a
+    # navigator obtained earlier must still report its own occurrence after its siblings have been visited.
+    navs, errs = {(): nav0}, {}
+
+    def step(par, kind, x):
+        return par.index(x) if kind == 1 else par.name(names[x] if kind == 0 else "REDEFINES-" + names[x])
+
+    wanted = list(paths)
+    if c["neg"]:
+        wanted = [p[:-1] for p in paths if p and p[-1][0] == 1]
+    for p in sorted(wanted, key=len):
+        tp = tuple(map(tuple, p))
+        for j in range(1, len(tp) + 1):
+            pre = tp[:j]
+            if pre in navs or pre in errs:
+                continue
+            if pre[:-1] in errs:
+                errs[pre] = errs[pre[:-1]]
+                continue
+            try:
+                navs[pre] = step(navs[pre[:-1]], *pre[-1])
+            except BaseException as ex:
+                if isinstance(ex, (KeyboardInterrupt, SystemExit, MemoryError)):
+                    raise
+                errs[pre] = exn_code(ex)
+
     def go(p):
-        nav = nav0
-        for kind, x in p:
-            nav = nav.index(x) if kind == 1 else nav.name(names[x] if kind == 0 else "REDEFINES-" + names[x])
-        return nav
+        return navs[tuple(map(tuple, p))]
 
     def guarded(f):
         try:
@@ -270,7 +304,10 @@ def observe(ctx, c):
             return [1, exn_code(ex)]
 
     def one(p):
-        nav = go(p)
+        tp = tuple(map(tuple, p))
+        if tp in errs:
+            return [1, errs[tp]]
+        nav = navs[tp]
         start, end, raw = nav.location.start, nav.location.end, list(nav.raw())
         del log[:]
         val = observe_call(nav.value, lambda v: canon_pv(v, rev))
@@ -292,7 +329,10 @@ def observe(ctx, c):
                 tables.append(p[:-1])
 
         def neg(p):
-            nav = go(p).index(-1)
+            tp = tuple(map(tuple, p))
+            if tp in errs:
+                return [1, errs[tp]]
+            nav = navs[tp].index(-1)
             return [0, nav.location.start, nav.location.end]
         negs = [[p, guarded(lambda: neg(p))] for p in tables]
     return head + [path_obs, [tops, rowvals], negs]
